@@ -341,8 +341,14 @@ def mutate(h, rnd, steps, wild):
                 log.append(("add_link", a.idx, b.idx))
             elif rnd.random() < 0.5:
                 a, b = rnd.choice(live), rnd.choice(live)
-                h.add_order_link(a, b)
-                log.append(("add_order_link", a.idx, b.idx))
+                if rnd.random() < 0.5:
+                    h.add_order_link(a, b)
+                    log.append(("add_order_link", a.idx, b.idx))
+                else:
+                    k = rnd.choice([1, 2])
+                    for _ in range(k):
+                        h.add_link(a.out(-1), b.inp(-1))       # parallel order links
+                    log.append(("raw_order_links", a.idx, b.idx, k))
             else:
                 p = rnd.choice(live)
                 n = h.add_node(O.Noop(T.Bool), p, num_outs=rnd.choice([None, 1, 2]), metadata=meta(rnd))
